@@ -183,7 +183,7 @@ C01NAMES = ["agree_unsatisfiable_of_shared_name", "agree_unsatisfiable_of_shared
             "assignLocals_class", "assignLocals_collision_free", "local_pass_collision_free",
             "locals_with_distinct_sources_stay_distinct",
             # the local pass protects exactly the names the usage analysis reports (seeded mutant C01-5)
-            "assignLocals_keeps_unreserved", "unreserved_used_name_can_be_captured"]
+            "assignLocals_keeps_unreserved", "unreserved_used_name_can_be_captured", "usage_analysis_descends_everywhere"]
 
 # property C02's obligations about ir/src/usage_analysis.rs (gather_usage_* / GlobalUsageAnalysis): NameMap::build reserves for
 # local variables only the names of the functions / globals that this analysis reports as used by some body
